@@ -454,7 +454,11 @@ def _explore(farm, mod, tier, verif_seed, budget_s, n_cases, fingerprints_out, t
             cases.append(prelude.pop(0))
         while len(cases) < batch and i < n_cases:
             cs = case_seed(verif_seed, prop, i)
-            cases.append(mod.gen_case(cs, tier, i))
+            try:
+                cases.append(mod.gen_case(cs, tier, i))
+            except Exception as exc:  # noqa: BLE001 - a defect of a generator costs that one case, never the verdict
+                cov.bump("generator_errors")
+                log(f"[{prop}] generator error on case seed {cs}: {type(exc).__name__}: {exc} (case skipped)")
             i += 1
         jobs = []
         for c in cases:
